@@ -1,6 +1,7 @@
-(* Model of src/utils/nms.rs (C14).  Hand-written; tied to the code by the exact correspondence in
-   tools/props/c14.py (kept indices of the real `nms` vs. this model fed with the real ranks and the
-   real coverage ratios `Universal2DBox::intersection(hi, lo) as f32 / lo.area()`).
+(* Model of src/utils/nms.rs (C14).  The control structure (filter, enumerate, stable sort, the two loops over the
+   excluded set) is hand-written and tied to the code by the exact correspondence in tools/props/c14.py (kept
+   indices of the real `nms` vs. this model); the decisions of the executable instance (score filter, rank,
+   coverage ratio and its comparison with the threshold) are the text translated from nms.rs (gen/ScalarNms.v).
 
    Rust, for reference (nms.rs:33-77):
 
@@ -23,6 +24,8 @@
      nms_boxes.into_iter().filter(|e| !excluded.contains(&e.index)).map(|e| e.bbox).collect()
 *)
 From Coq Require Import List NArith QArith Bool Arith.
+From Similari Require Import Base.Num.
+From SimilariGen Require Import Scalar ScalarBox ScalarNms.
 Import ListNotations.
 
 (* itertools' sorted_by = Vec::sort_by: a stable sort.  With the comparator b.rank.cmp(a.rank) the result is
@@ -112,27 +115,29 @@ Section Nms.
 End Nms.
 
 (* ------------------------------------------------------------------------------------------------ *)
-(* Executable instance used by the correspondence check. *)
+(* The instance that runs next to the implementation.  Its three decisions are NOT hand-written: they are the
+   definitions TRANSLATED from src/utils/nms.rs on every run (gen/ScalarNms.v), at exact rationals:
+     passes  = nms_score_filter e score (nms_score_threshold_default score_threshold)
+     rank    = nms_rank bbox score
+     covers  = nms_covers_cmp (nms_metric ob.bbox (intersection(cb, ob) as f32)) nms_threshold
+   Only the value `Universal2DBox::intersection(cb, ob) as f32` is an oracle (a table filled by the harness with the
+   crate's own function; its numeric meaning is C08's subject).  The division by the area of the LOWER box and the
+   strict comparison are the translated text.  (The implementation divides in f32: cases in which the exact ratio is
+   within a relative 1e-6 of the threshold without being equal to it are counted as near-ties by the driver and not
+   compared.) *)
 
-Record det := { d_id : N;                 (* position in the caller's slice *)
-                d_score : option Q;
-                d_height : Q;
-                d_aspect : Q }.
-
-Definition F32_MAX : Q := 340282346638528859811704183484516925440 # 1.   (* f32::MAX = 2^128 - 2^104; f32::MIN = -f32::MAX *)
-
-Definition Qgtb (a b : Q) : bool := negb (Qle_bool a b).                  (* a > b *)
+Record det := { d_id : N;                          (* position in the caller's slice *)
+                d_box : Universal2DBox Qops;       (* exact rationals of the f32 fields *)
+                d_score : option Q }.
 
 Definition det_passes (score_threshold : option Q) (d : det) : bool :=
-  let st := match score_threshold with Some t => t | None => Qopp F32_MAX end in
-  Qgtb (match d_score d with Some s => s | None => F32_MAX end) st
-  && Qgtb (d_height d) 0 && Qgtb (d_aspect d) 0.
+  nms_score_filter Qops (d_box d) (d_score d) (nms_score_threshold_default Qops score_threshold).
 
-Definition det_rank (d : det) : Q := match d_score d with Some s => s | None => d_height d end.
+Definition det_rank (d : det) : Q := nms_rank Qops (d_box d) (d_score d).
 
-(* coverage ratios as computed by the implementation's own functions, sparse: rows by the higher-ranked box,
-   entries by the lower one; absent = 0 (also for NaN, for which `metric > thr` is false as well) *)
-Definition metric_tab := list (N * list (N * Q)).
+(* intersection areas as computed by the implementation's own function, sparse: rows by the higher-ranked box,
+   entries by the lower one; absent = 0 (also for NaN: NaN / area > thr is false as well) *)
+Definition inter_tab := list (N * list (N * Q)).
 
 Fixpoint assocN {V : Type} (k : N) (l : list (N * V)) : option V :=
   match l with
@@ -140,17 +145,24 @@ Fixpoint assocN {V : Type} (k : N) (l : list (N * V)) : option V :=
   | (k', v) :: r => if N.eqb k k' then Some v else assocN k r
   end.
 
-Definition metric_of (tab : metric_tab) (hi lo : N) : Q :=
+Definition inter_of (tab : inter_tab) (hi lo : N) : Q :=
   match assocN hi tab with
   | None => 0
   | Some row => match assocN lo row with None => 0 | Some m => m end
   end.
 
-Definition det_covers (tab : metric_tab) (nms_threshold : Q) (hi lo : det) : bool :=
-  Qgtb (metric_of tab (d_id hi) (d_id lo)) nms_threshold.
+Definition det_covers (tab : inter_tab) (nms_threshold : Q) (hi lo : det) : bool :=
+  nms_covers_cmp Qops (nms_metric Qops (d_box lo) (inter_of tab (d_id hi) (d_id lo))) nms_threshold.
+
+Definition nms_translated (score_threshold : option Q) (nms_threshold : Q) (tab : inter_tab) (dets : list det) : list det :=
+  nms_loop det det_rank (det_passes score_threshold) (det_covers tab nms_threshold) dets.
 
 (* kept positions (in output order) according to the loop model and to the recursive reading *)
-Definition run_case (score_threshold : option Q) (nms_threshold : Q) (tab : metric_tab) (dets : list det)
+Definition run_case (score_threshold : option Q) (nms_threshold : Q) (tab : inter_tab) (dets : list det)
   : list N * list N :=
-  (map d_id (nms_loop det det_rank (det_passes score_threshold) (det_covers tab nms_threshold) dets),
+  (map d_id (nms_translated score_threshold nms_threshold tab dets),
    map d_id (nms_rec det det_rank (det_passes score_threshold) (det_covers tab nms_threshold) dets)).
+
+(* constructor used by the driver: id, xc, yc, angle, aspect, height, score *)
+Definition mk_det (id : N) (xc yc : Q) (angle : option Q) (aspect height : Q) (score : option Q) : det :=
+  {| d_id := id; d_box := Build_Universal2DBox Qops xc yc angle aspect height 1; d_score := score |}.
